@@ -37,6 +37,14 @@ def f_part(x):
 
 
 @m.memento_function(cluster="vfc", version="1")
+def f_child(x):
+    sys.audit("vf.body", "f_child", x)
+    p = InMemoryPartition({"d": "child-d-%s" % x})
+    p._merge_parent = f_part(x)  # the partition returned by another memoized call is the merge parent
+    return p
+
+
+@m.memento_function(cluster="vfc", version="1")
 def f_exc(x):
     sys.audit("vf.body", "f_exc", x)
     raise ValueError("boom-%s" % x)
@@ -64,6 +72,8 @@ def expected(name, x):
         return ("val", "ko-%s" % x)
     if name == "f_part":
         return ("part", {"a": "part-a-%s" % x, "b": "identical-bytes"})
+    if name == "f_child":
+        return ("part", {"a": "part-a-%s" % x, "b": "identical-bytes", "d": "child-d-%s" % x})
     if name == "f_exc":
         return ("exc", ("ValueError", "boom-%s" % x))
     if name == "f_big":
